@@ -144,15 +144,15 @@ class Shift(Case):
 
 def cases(tier):
     out = []
-    lmax = 2 if tier == "quick" else 4
-    omax = 2 if tier == "quick" else 4
+    lmax = 2 if tier == "quick" else 3
+    omax = 2 if tier == "quick" else 3
     # every (la, lb) <= lmax with every order triple <= omax, enumerated; orders passed in blocks of mixed sequence
     triples = list(itertools.product(range(omax + 1), repeat=3))
     for la in range(lmax + 1):
         for lb in range(lmax + 1):
             # split the triples into lists of 9 / 25 in a scrambled order so that the order axis matters
             scr = sorted(triples, key=lambda t: (t[0] * 7 + t[1] * 3 + t[2] * 5 + la + 2 * lb) % 11)
-            step = 9 if tier == "quick" else 25
+            step = 9 if tier == "quick" else 16
             for i in range(0, len(scr), step):
                 out.append(Block(la=la, lb=lb, Ka=1, Kb=1, Ma=1, Mb=1, orders=[list(t) for t in scr[i:i + step]]))
     for la, lb in [(1, 0), (1, 1), (2, 1)]:
@@ -166,6 +166,11 @@ def cases(tier):
     out.append(Shift(ls=[1, 0], types="cc", Ks=[1, 1], Ms=[1, 1], order=[2, 1, 0]))
     out.append(Shift(ls=[1, 1], types="cc", Ks=[1, 1], Ms=[1, 1], order=[1, 1, 1]))
     if tier == "thorough":
+        # order 4 along an axis and l = 4, on a reduced list of orders
+        for la, lb in [(0, 0), (1, 0), (0, 2), (2, 2)]:
+            out.append(Block(la=la, lb=lb, Ka=1, Kb=1, Ma=1, Mb=1, orders=[[4, 0, 0], [0, 4, 1], [2, 0, 4], [4, 4, 4]]))
+        for la, lb in [(4, 0), (0, 4), (4, 2), (3, 4)]:
+            out.append(Block(la=la, lb=lb, Ka=1, Kb=1, Ma=1, Mb=1, orders=[[1, 0, 0], [0, 2, 1], [3, 0, 2]]))
         out.append(Public(ls=[2, 2], types="ss", Ks=[1, 2], Ms=[1, 1], orders=[[2, 0, 1], [0, 3, 0]]))
         out.append(Public(ls=[3, 1], types="cs", Ks=[1, 1], Ms=[1, 1], orders=[[1, 1, 1]]))
         out.append(ZeroIsOverlap(ls=[0, 1, 2], types="csc", Ks=[1, 2, 1], Ms=[2, 1, 1]))
@@ -178,8 +183,8 @@ def cases(tier):
 def main(tier="quick", seed=0, only=None):
     cs = cm.parse_only(cases(tier), only)
     bounds = {
-        "angular_momenta": "every (la, lb) <= 2 (quick) / <= 4 (thorough), enumerated",
-        "orders": "every order triple with each order <= 2 (quick) / <= 4 (thorough), enumerated, passed as scrambled lists; all 6 orderings of one 3-element list",
+        "angular_momenta": "every (la, lb) <= 2 (quick) / <= 3 (thorough), enumerated; thorough adds four pairs with l = 4 on three order triples",
+        "orders": "every order triple with each order <= 2 (quick) / <= 3 (thorough), enumerated, passed as scrambled lists; all 6 orderings of one 3-element list; thorough adds four triples with an order 4 for four low-l pairs",
         "origin": "symbolic (covers on-centre, off-centre, far)", "primitives": "K <= 2", "segments": "M <= 2",
         "outside": "floating-point rounding; K > 2; more than 3 shells",
     }
